@@ -327,3 +327,135 @@ type EB struct {
 	*EA
 	Y int
 }
+
+// ---- round 5: generic types, repeated / diamond embedding, OmitNil kind table, omitempty over embedding elements,
+// ---- create-key collisions, deep containers
+
+// Pair is a generic struct: the names of its instances (Pair[int], Pair[enctypes.Pair[int]]) contain characters that a
+// SEN token cannot hold.
+type Pair[T any] struct {
+	Left  T
+	Right T
+}
+
+// Stamp is embedded along two paths in Doc / Doc2.
+type Stamp struct {
+	Created int
+	Updated int
+}
+
+// Base embeds Stamp.
+type Base struct {
+	Stamp
+	ID int
+}
+
+// Doc embeds Stamp directly (declared first) and again through Base: the shallowest Created / Updated win.
+type Doc struct {
+	Stamp
+	Base
+	Title string
+}
+
+// Doc2 declares the direct embedding last.
+type Doc2 struct {
+	Base
+	Stamp
+	Title string
+}
+
+// D0, B1, C1, Dia: a diamond: K is reachable at the same depth through B1 and C1 (ambiguous: dropped by Go's rule).
+type D0 struct{ K int }
+
+// B1 embeds D0.
+type B1 struct {
+	D0
+	Bx int
+}
+
+// C1 embeds D0.
+type C1 struct {
+	D0
+	Cx int
+}
+
+// Dia embeds B1 and C1.
+type Dia struct {
+	B1
+	C1
+	T string
+}
+
+// Dia2: D0 directly and through B1 (uneven diamond: the direct K wins).
+type Dia2 struct {
+	B1
+	D0
+	T string
+}
+
+// SP is a struct whose only member is a pointer (data word zero when the pointer is nil), E0 has no members at all.
+type SP struct{ P *int }
+
+// E0 is a zero-size struct.
+type E0 struct{}
+
+// MBase / Meta: Meta embeds a POINTER to MBase; members of kind *Meta, []Meta, map[string]Meta carry omitempty.
+type MBase struct {
+	Rev int
+	Tag string
+}
+
+// Meta embeds *MBase.
+type Meta struct {
+	*MBase
+	Note string
+}
+
+// Ev has a member whose key is "type" (the usual create key); LogT holds pointers to Ev; Hat a member tagged "^".
+type Ev struct {
+	Seq  int
+	Type string
+}
+
+// LogT refers to Ev through pointers (addressable when decomposed).
+type LogT struct {
+	Name   string
+	Events []*Ev
+	First  *Ev
+}
+
+// Hat has a member whose tag is the create key "^" of the harness.
+type Hat struct {
+	Caret string `json:"^"`
+	N     int
+}
+
+// Leaf is only reachable through deep container nesting (it is never registered by the harness).
+type Leaf struct {
+	La int
+	Lb string
+}
+
+// Deep3 .. Deep6: the owner reaches Leaf through 3 .. 6 container / pointer levels and has an interface member.
+type Deep3 struct {
+	Deep map[string][]*Leaf
+	Top  any
+}
+
+// Deep4 has four levels.
+type Deep4 struct {
+	Deep [][][][]Leaf
+	Top  any
+}
+
+// Deep5 has five levels.
+type Deep5 struct {
+	Deep map[string]map[string]map[string][]*Leaf
+	Top  any
+}
+
+// Deep6 has six levels.
+type Deep6 struct {
+	Deep map[string][]map[string][]*[2]Leaf
+	Top  any
+}
